@@ -78,7 +78,7 @@ class C13(Check):
 
     def spaces(self, tier):
         Q = tier == "quick"
-        L = 2 if Q else 3
+        L = 3 if Q else 4
         vals = (lambda: [("s", s) for s in strings(L) + CODELIKE])
         return [
             Space(f"strings<={L}", {"alphabet": ALPHA, "maxlen": L, "extra": len(CODELIKE)}, vals, runner="run_str"),
